@@ -35,29 +35,50 @@ def defsOf (B : List String) : Stmt → List String
   | .declValue _ _ [(_, [(_, x)], _)] => x :: B
   | _ => B
 
+/-- the condition of an `if` is the literal `true` (the compiler then emits the body only) -/
+def isTrueLit : Expr → Bool
+  | .bool _ true => true
+  | _ => false
+
+/-- conditions of `if`: the literal `true`, or an expression of the fragment that is not a boolean literal -/
+def condF (B : List String) (c : Expr) : Bool := isTrueLit c || (ExprF (bnd B) c && !isBoolLit c)
+
+/-- `var` declarations of the slice: one specification with one name, with a value or without -/
+def declF (B : List String) (tok : Nat) : List (Option Nat × List (Pos × String) × List (Option Expr)) → Bool
+  | [(_, [(_, x)], [some e])] => ExprF (bnd B) e && tok == tVar && x != "_"
+  | [(_, [(_, x)], [])] => tok == tVar && x != "_"
+  | _ => false
+
+/-- `x++` / `x--` on a name in scope -/
+def incF (B : List String) : Expr → Bool
+  | .ident _ x => B.contains x
+  | _ => false
+
 mutual
-/-- statements of the slice: `e;`, `x := e`, `var x = e`, `x = e`, `x op= e` (uncaptured locals), blocks,
-    `if c { … }`, `if c { … } else { … }`, `else if`, `return`, `return e`, the empty statement -/
+/-- statements of the slice: `e;`, `x := e`, `var x = e`, `var x`, `x = e`, `x op= e`, `x++`, `x--` (uncaptured locals),
+    blocks, `if c { … }`, `if c { … } else { … }`, `else if` (also with the literal `true` as condition), `return`,
+    `return e`, the empty statement -/
 def StmtF : List String → Stmt → Bool
   | _, .empty _ => true
   | B, .expr _ e => ExprF (bnd B) e
+  | B, .incdec _ _ _ e => incF B e
   | B, .assign _ tok [.ident _ x] [r] =>
       ExprF (bnd B) r &&
       (if tok == tDefine then x != "_"
        else if tok == tAssign then B.contains x
        else (Compile.compoundOp tok).isSome && B.contains x)
-  | B, .declValue _ tok [(_, [(_, x)], [some e])] => ExprF (bnd B) e && tok == tVar && x != "_"
+  | B, .declValue _ tok specs => declF B tok specs
   | B, .block _ body => StmtsF B body
-  | B, .if_ _ none c _ body none => ExprF (bnd B) c && !isBoolLit c && StmtsF B body
-  | B, .if_ _ none c _ body (some e) => ExprF (bnd B) c && !isBoolLit c && StmtsF B body && ElseF B e
+  | B, .if_ _ none c _ body none => condF B c && StmtsF B body
+  | B, .if_ _ none c _ body (some e) => condF B c && StmtsF B body && ElseF B e
   | _, .return_ _ none => true
   | B, .return_ _ (some e) => ExprF (bnd B) e
   | _, _ => false
 /-- what may follow `else`: a block or another `if` -/
 def ElseF : List String → Stmt → Bool
   | B, .block _ body => StmtsF B body
-  | B, .if_ _ none c _ body none => ExprF (bnd B) c && !isBoolLit c && StmtsF B body
-  | B, .if_ _ none c _ body (some e) => ExprF (bnd B) c && !isBoolLit c && StmtsF B body && ElseF B e
+  | B, .if_ _ none c _ body none => condF B c && StmtsF B body
+  | B, .if_ _ none c _ body (some e) => condF B c && StmtsF B body && ElseF B e
   | _, _ => false
 def StmtsF : List String → List Stmt → Bool
   | _, [] => true
@@ -74,6 +95,8 @@ def needS : Stmt → Nat
   | .expr _ e => need e
   | .assign _ _ _ [r] => need r + 1
   | .declValue _ _ [(_, _, [some e])] => need e + 1
+  | .declValue _ _ [(_, _, [])] => 2
+  | .incdec _ _ _ _ => 2
   | .block _ body => needL body
   | .if_ _ _ c _ body none => max (need c) (needL body)
   | .if_ _ _ c _ body (some e) => max (need c) (max (needL body) (needS e))
